@@ -157,7 +157,7 @@ def gen_audits_for(rng, name, in_graph_versions, crits, notes, local=True, p_vio
         e["notes"] = notes()
         out.append(e)
     if rng.random() < p_violation:
-        req = rng.choice(["*", "=" + rng.choice(in_graph_versions or universe), "<3.0.0", ">=2.0.0",
+        req = rng.choice(["*", "=" + rng.choice(in_graph_versions or universe).split("@")[0], "<3.0.0", ">=2.0.0",
                           "=" + rng.choice(universe)])
         out.append({"kind": "violation", "violation": req, "criteria": crit_list(rng, crits), "notes": notes()})
     rng.shuffle(out)
@@ -753,4 +753,78 @@ def gen_import_case(rng, cid):
     case = {"id": cid, "kind": "import", "graph": {"packages": pkgs}, "store_struct": store,
             "peers_struct": peers_struct, "registry": {"users": users, "packages": reg, "meta": {}},
             "allow_criteria_changes": True}
+    return finalize(case)
+
+
+# ---------------------------------------------------------------------------
+# audit-as-crates-io / crate-policy cases (C08)
+
+def gen_audit_as_case(rng, cid):
+    pkgs = gen_graph(rng)
+    # more non-registry packages, some sharing a name with a registry crate
+    for p in pkgs:
+        if p["source"] == "registry" and rng.random() < 0.25:
+            p["source"] = rng.choice(["path", "git:" + GITREV])
+            fix = True
+    # dependency sources must agree with the packages
+    src = {(p["name"], p["version"]): p["source"] for p in pkgs}
+    for p in pkgs:
+        for d in p["deps"]:
+            d["source"] = src[(d["name"], d["version"])]
+        if rng.random() < 0.5:
+            p["description"] = rng.choice(["a crate", "another crate", p["name"]])
+        if rng.random() < 0.5:
+            p["repository"] = f"https://example.com/{rng.choice([p['name'], 'other'])}"
+    names = sorted({p["name"] for p in pkgs})
+    by_name = {}
+    for p in pkgs:
+        by_name.setdefault(p["name"], []).append(p)
+    policy = {}
+    for n, ps in by_name.items():
+        r = rng.random()
+        if r < 0.35:
+            continue
+        versioned = len(ps) > 1 and rng.random() < 0.7 or rng.random() < 0.15
+        targets = ps if versioned else [ps[0]]
+        if versioned and rng.random() < 0.2:
+            targets = targets[:-1] or targets       # a missing version
+        for p in targets:
+            ent = {}
+            if p["source"] != "registry" and rng.random() < 0.7:
+                ent["audit-as-crates-io"] = rng.random() < 0.6
+            if rng.random() < 0.3:
+                ent["criteria"] = ["safe-to-run"]
+            if rng.random() < 0.3 and p["deps"]:
+                ent["dependency-criteria"] = {rng.choice(p["deps"])["name"]: ["safe-to-run"]}
+            if not ent:
+                ent["notes"] = "x"
+            policy[f"{n}:{vstr(p)}" if versioned else n] = ent
+    if rng.random() < 0.2:
+        policy["zz-no-such-crate"] = {"audit-as-crates-io": rng.random() < 0.5}
+    if rng.random() < 0.2 and names:
+        n = rng.choice(names)
+        if n not in policy:
+            policy[f"{n}:9.9.9"] = {"notes": "stray version"}
+            for p in by_name[n]:
+                if rng.random() < 0.7:
+                    policy[f"{n}:{vstr(p)}"] = {"notes": "ok"}
+    store = {"criteria": {}, "policy": policy, "imports": {}, "exemptions": {}, "audits": {}, "wildcard_audits": {},
+             "trusted": {}, "lock": {"audits": {}, "publisher": {}, "unpublished": {}}}
+    reg = {}
+    meta = {}
+    for n in names:
+        if rng.random() < 0.7:
+            reg[n] = [{"version": v, "by": 1, "when": "2022-01-01"} for v in sorted(set(rng.sample(VERSIONS, 2)))]
+            p = rng.choice(by_name[n])
+            m = {}
+            r = rng.random()
+            if r < 0.4:
+                m["description"] = p.get("description", "whatever")
+            elif r < 0.6:
+                m["repository"] = p.get("repository") or "https://example.com/none"
+            elif r < 0.8:
+                m["description"] = "something else entirely"
+            meta[n] = m
+    case = {"id": cid, "kind": "audit_as", "graph": {"packages": pkgs}, "store_struct": store,
+            "registry": {"users": [[1, "user1", "User 1"]], "packages": reg, "meta": meta}}
     return finalize(case)
